@@ -6,7 +6,10 @@ import json
 import multiprocessing
 import os
 import re
+import resource
+import signal
 import sys
+import threading
 import time
 import traceback
 
@@ -116,6 +119,12 @@ class Check:
     quick = (500, 1)  # (examples per shard, shards)
     thorough = (2000, 16)
     max_shrink_s = {"quick": 8, "thorough": 60}
+    # a single case that produces no result within this time, or needs more address space than this, is reported as a
+    # violation (valid inputs of a few hundred bytes are decided in milliseconds): a check must not hang on a change that
+    # makes the library loop or allocate without bound.  Two to four orders of magnitude above the slowest legitimate case.  After two such failures a
+    # shard stops (every further case would cost another time-out).
+    case_timeout_s = 90
+    memory_limit_bytes = 8 << 30
     exhaustive = False
 
     def selftest(self):
@@ -173,6 +182,70 @@ class Stats:
         self.harness_errors.extend(other.harness_errors)
 
 
+class CaseTimeout(BaseException):
+    pass
+
+
+class ShardAbort(BaseException):
+    """Raised after repeated resource failures: further cases would each cost a full time-out."""
+
+
+def _on_alarm(signum, frame):
+    raise CaseTimeout()
+
+
+def _run_case_guarded(check, case):
+    """check.run_case under a wall-clock watchdog; MemoryError (address-space limit) and the watchdog become violations."""
+    timeout = getattr(check, "case_timeout_s", 600)
+    use_alarm = threading.current_thread() is threading.main_thread() and timeout
+    if use_alarm:
+        old = signal.signal(signal.SIGALRM, _on_alarm)
+        signal.setitimer(signal.ITIMER_REAL, timeout)
+    try:
+        return check.run_case(case)
+    except CaseTimeout:
+        raise Violation(f"no-result-within-{timeout}s", f"the case was still running after {timeout} s (cases of this check are decided in milliseconds to seconds): the library loops or waits; case={tagged.enc(case)!r:.600}")
+    except MemoryError as e:
+        where = _innermost_fastavro_frame(e)
+        raise Violation("memory-exhausted:" + where, f"MemoryError under an address-space limit of {getattr(check, 'memory_limit_bytes', 0) >> 30} GiB while deciding a small case; innermost library frame {where}; case={tagged.enc(case)!r:.600}")
+    finally:
+        if use_alarm:
+            signal.setitimer(signal.ITIMER_REAL, 0)
+            signal.signal(signal.SIGALRM, old)
+
+
+def _innermost_fastavro_frame(e):
+    where = "?"
+    tb = e.__traceback__
+    while tb is not None:
+        fn = tb.tb_frame.f_code.co_filename
+        if fn.startswith(FA_DIR):
+            where = os.path.splitext(os.path.basename(fn))[0] + "." + tb.tb_frame.f_code.co_name
+        tb = tb.tb_next
+    return where
+
+
+def _limit_memory(check):
+    limit = getattr(check, "memory_limit_bytes", 0)
+    if not limit:
+        return None
+    try:
+        soft, hard = resource.getrlimit(resource.RLIMIT_AS)
+        new = limit if hard == resource.RLIM_INFINITY else min(limit, hard)
+        resource.setrlimit(resource.RLIMIT_AS, (new, hard))
+        return (soft, hard)
+    except (ValueError, OSError):
+        return None
+
+
+def _restore_memory(old):
+    if old is not None:
+        try:
+            resource.setrlimit(resource.RLIMIT_AS, old)
+        except (ValueError, OSError):
+            pass
+
+
 def execute(check, case, stats, shard_seed=None, keep_sample=False):
     stats.evaluations += 1
     pristine = case
@@ -180,7 +253,7 @@ def execute(check, case, stats, shard_seed=None, keep_sample=False):
         # the code under test may modify what it is handed (that is itself a finding for C17):
         # keep the generated case pristine for the replay file, the digest and the samples
         case = copy.deepcopy(pristine)
-        labels = check.run_case(case)
+        labels = _run_case_guarded(check, case)
     except Violation as v:
         case = pristine
         f = stats.failures.get(v.signature)
@@ -200,6 +273,10 @@ def execute(check, case, stats, shard_seed=None, keep_sample=False):
                 f["case"] = e
                 f["message"] = v.message
         stats.labels["outcome:violation"] = stats.labels.get("outcome:violation", 0) + 1
+        if v.kind.startswith(("no-result-within", "memory-exhausted")) or ":MemoryError" in v.signature:
+            stats.labels["outcome:resource-failure"] = stats.labels.get("outcome:resource-failure", 0) + 1
+            if stats.labels["outcome:resource-failure"] >= 2:
+                raise ShardAbort()
         return None
     except HarnessError:
         raise
@@ -259,15 +336,20 @@ def _run_shard(args):
     stats = Stats()
     shard_seed = _mix(seed, shard)
     err = None
+    old_limit = _limit_memory(check)
     try:
         for case in check.fixed_cases_for_shard(tier, shard, n_shards):
             execute(check, case, stats, shard_seed=None, keep_sample=len(stats.samples) < 1)
         if n_examples > 0:
             _hypothesis_run(check, tier, shard_seed, n_examples, lambda case: execute(check, case, stats, shard_seed))
+    except ShardAbort:
+        stats.labels["shard-stopped-after-repeated-resource-failures"] = 1
     except HarnessError as e:
         err = f"HarnessError: {e}"
     except Exception as e:  # hypothesis health check, Unsatisfiable, generator bug
         err = "".join(traceback.format_exception(type(e), e, e.__traceback__))[-4000:]
+    finally:
+        _restore_memory(old_limit)
     extra = {}
     try:
         extra = check.extra_coverage() or {}
@@ -391,8 +473,9 @@ def replay(check, path):
     except Exception as e:
         print(f"HARNESS-ERROR: reference self-test failed: {e!r}")
         return 2
+    _limit_memory(check)
     try:
-        check.run_case(case)
+        _run_case_guarded(check, case)
     except OutOfDomain as e:
         print(f"replay {path}: case lies outside the property's domain ({e.why}); nothing asserted")
         return 0
@@ -486,7 +569,8 @@ def run(check, tier, seed, examples=None, shards=None, verbose=True):
             continue
         violations += 1
         case_enc, msg = f["case"], f["message"]
-        if violations <= 2:
+        resource_failure = f["kind"].startswith(("no-result-within", "memory-exhausted")) or ":MemoryError" in sig
+        if violations <= 2 and not resource_failure:  # (re-running a case that hangs costs a full time-out per attempt)
             case_enc, msg = shrink_failure(
                 check, tier, sig, f, known, n_examples, check.max_shrink_s.get(tier, 20)
             )
